@@ -210,3 +210,164 @@ def check_actor_health(result, clause="deliver"):
             for e in log:
                 if e[0] in ("actor-died", "thread-died", "actor-timeout", "join-timeout", "wait-timeout"):
                     raise Violation(f"{clause}.actor-{e[0]}", f"{key}: {e}")
+
+
+# =============================================================================================
+# C03: close ordered after data, observed consistently by both sides
+# =============================================================================================
+
+
+def c03_params(max_items=6):
+    return st.fixed_dictionaries(dict(
+        chan=st.sampled_from(["main", "main", "sub_a", "sub_b"]),  # exec channel, or sub channel created by A / by B
+        closer=st.sampled_from(["a", "b"]),
+        how=st.sampled_from(["close", "close", "drop", "drop_cb", "end"]),
+        items=st.lists(payloads(), max_size=max_items),
+        receivers=st.integers(1, 3),
+        waiters=st.integers(0, 2),
+        opposite=st.lists(payloads(), max_size=3),
+        closer_receiver=st.booleans(),
+        wrap=st.sampled_from(["bare", "list", "tuple", "dict"]),
+    )).map(_c03_normalise)
+
+
+def _c03_normalise(p):
+    p = dict(p)
+    if p["chan"] == "main":
+        # the exec channel: A can close or drop it, B "closes" it by returning from the exec
+        if p["closer"] == "b":
+            p["how"] = "end"
+        elif p["how"] == "end":
+            p["how"] = "close"
+    else:
+        if p["how"] == "end":
+            p["how"] = "close"
+    if p["how"] != "close":
+        p["closer_receiver"] = False
+    return p
+
+
+def c03_conversation(conv, p):
+    ch = "main" if p["chan"] == "main" else "sub"
+    closer, peer = p["closer"], ("b" if p["closer"] == "a" else "a")
+    items = [tag_item(conv, f"{closer}2{peer}", 0, k, pl) for k, pl in enumerate(p["items"])]
+    opp = [tag_item(conv, f"{peer}2{closer}", 0, k, pl) for k, pl in enumerate(p["opposite"])]
+    # ---- closer script
+    c_ops = []
+    if p["closer_receiver"]:
+        c_ops.append(["spawn", "crcv", [["recv_until", ch, 0]]])
+    c_ops += [["send", ch, it] for it in items]
+    if p["how"] == "close":
+        c_ops += [["close", ch], ["note", "after-close"], ["send", ch, {"l": ["late"]}], ["isclosed", ch], ["waitclose", ch, 0.5],
+                  ["close", ch]]
+    elif p["how"] == "drop":
+        c_ops += [["drop", ch]]
+    elif p["how"] == "drop_cb":
+        c_ops += [["setcallback", ch, f"{closer}:{conv}:cb", True], ["drop", ch]]
+    if p["closer_receiver"]:
+        c_ops.append(["join", "crcv"])
+    # ---- peer script
+    p_ops = []
+    for r in range(p["receivers"]):
+        p_ops.append(["spawn", f"rcv{r}", [["recv_until", ch, 3]]])
+    for w in range(p["waiters"]):
+        p_ops.append(["spawn", f"wc{w}", [["waitclose", ch]]])
+    if opp:
+        p_ops.append(["spawn", "osnd", [["send", ch, it] for it in opp]])
+    p_ops += [["join", f"rcv{r}"] for r in range(p["receivers"])]
+    p_ops += [["join", f"wc{w}"] for w in range(p["waiters"])]
+    if opp:
+        p_ops.append(["join", "osnd"])
+    peer_may_close = not (peer == "b" and ch == "main")  # an explicit close from inside the remote_exec is refused by design
+    if p["how"] != "drop_cb":
+        p_ops += [["note", "observed-close"], ["send", ch, {"l": ["late"]}], ["isclosed", ch], ["waitclose", ch, 0.5]]
+        if peer_may_close:
+            p_ops += [["close", ch]]
+    # ---- assemble: who creates the sub channel, who runs which script
+    a_pre, b_pre = [], []
+    if p["chan"] == "sub_a":
+        a_pre = [["newchannel", "sub"], ["send_chan", "main", "sub", p["wrap"]]]
+        b_pre = [["recv_chan", "main", "sub"]]
+    elif p["chan"] == "sub_b":
+        b_pre = [["newchannel", "sub"], ["send_chan", "main", "sub", p["wrap"]]]
+        a_pre = [["recv_chan", "main", "sub"]]
+    a_body, b_body = (c_ops, p_ops) if closer == "a" else (p_ops, c_ops)
+    b_ops = b_pre + b_body
+    a_ops = [["remote_exec", "main", b_ops]] + a_pre + a_body
+    if ch == "sub" or closer == "b":
+        a_ops += [["waitclose", "main"]]  # the exec itself still ends normally
+    expect = dict(conv=conv, ch=ch, closer=closer, peer=peer, how=p["how"], sent=[fp_of(i) for i in items],
+                  opposite=[fp_of(i) for i in opp], receivers=p["receivers"], waiters=p["waiters"],
+                  closer_receiver=p["closer_receiver"], peer_may_close=peer_may_close)
+    return a_ops, b_ops, expect
+
+
+def build_c03_program(param_list):
+    convs, expects = [], []
+    for k, p in enumerate(param_list):
+        a_ops, _, ex = c03_conversation(k, p)
+        convs.append({"id": k, "a": a_ops})
+        expects.append(ex)
+    return {"convs": convs}, expects
+
+
+def check_c03(result, ex, clause="close"):
+    conv, peer, closer = ex["conv"], ex["peer"], ex["closer"]
+    plogs = result[peer] or {}
+    clogs = result[closer] or {}
+    where = f"conv {conv} ({closer} {ex['how']}s {ex['ch']})"
+    seen = []
+    for r in range(ex["receivers"]):
+        key = f"{peer}:{conv}:rcv{r}"
+        log = plogs.get(key)
+        if log is None:
+            raise Violation(f"{clause}.consumer-missing", f"{where}: receiver {key} has no log")
+        items = [e[1] for e in log if e[0] == "item"]
+        tail = log[len(items):]
+        if [e for e in log[:len(items)] if e[0] != "item"]:
+            raise Violation(f"{clause}.item-after-eof", f"{where}: receiver {key} got an item after the end: {log[-6:]}")
+        if ex["how"] == "drop_cb":
+            # "sendonly": the peer's receivers are woken with EOFError, nothing more is claimed
+            if not tail or tail[0] != ["eof"]:
+                raise Violation(f"{clause}.no-eof", f"{where}: receiver {key} ended with {tail[:2]}")
+        else:
+            if tail != [["eof"]] * 4:
+                raise Violation(f"{clause}.no-repeated-eof", f"{where}: receiver {key} expected EOFError on 4 consecutive "
+                                f"receive() calls after the data, got {tail}")
+        pos = -1
+        for fp in items:
+            if fp not in ex["sent"]:
+                raise Violation(f"{clause}.foreign-item", f"{where}: receiver {key} got {fp}")
+            nxt = ex["sent"].index(fp)
+            if nxt <= pos:
+                raise Violation(f"{clause}.order", f"{where}: receiver {key} saw items out of order: {_seqs(items)}")
+            pos = nxt
+        seen += items
+    if sorted(map(repr, seen)) != sorted(map(repr, ex["sent"])):
+        missing = [fp for fp in ex["sent"] if fp not in seen]
+        raise Violation(f"{clause}.lost" if missing else f"{clause}.duplicate",
+                        f"{where}: {len(ex['sent'])} items were sent before the close, the peer's receivers got {len(seen)} "
+                        f"(missing seqs {_seqs(missing)})")
+    for w in range(ex["waiters"]):
+        log = plogs.get(f"{peer}:{conv}:wc{w}", [])
+        if log != [["waitclose", ex["ch"], "ok"]]:
+            raise Violation(f"{clause}.waitclose", f"{where}: waitclose caller {w} on the peer saw {log}")
+    # state after the close, on the peer (once it has observed the close) and on the closing side (immediately)
+    def post(log, marker, who, with_close=True):
+        if marker not in log:
+            raise Violation(f"{clause}.script-incomplete", f"{where}: {who} never reached {marker}: {log[-4:]}")
+        want = [["send", "oserror"], ["isclosed", True], ["waitclose", ex["ch"], "ok"]] + ([["close", "ok"]] if with_close else [])
+        tail = log[log.index(marker) + 1:][:len(want)]
+        if tail != want:
+            raise Violation(f"{clause}.state-after-close", f"{where}: on the {who} send/isclosed/waitclose/close gave {tail}")
+
+    if ex["how"] != "drop_cb":
+        post(plogs.get(f"{peer}:{conv}:main", []), ["note", "observed-close"], "peer", ex["peer_may_close"])
+    if ex["how"] == "close":
+        post(clogs.get(f"{closer}:{conv}:main", []), ["note", "after-close"], "closing side")
+    if ex["closer_receiver"]:
+        log = clogs.get(f"{closer}:{conv}:crcv", [])
+        items = [e[1] for e in log if e[0] == "item"]
+        if items != ex["opposite"][:len(items)] or log[len(items):] != [["eof"]]:
+            raise Violation(f"{clause}.closer-view", f"{where}: the closing side's own receiver saw {log[-4:]} "
+                            f"(must be a prefix of the {len(ex['opposite'])} items sent to it, then EOFError)")
